@@ -67,8 +67,17 @@ mod h {
             assert!(was_used == !free[I], "post_free_succeeds_iff_vehicle_was_in_use");
             free[I] = true;
         }
-        check_view(&r, &a, &free);
+        // state inspection through the fields (the iterator views are checked separately on constant states: with a symbolic
+        // state the flat_map chains over the map of sets do not finish in CBMC)
+        let mut i = 0;
+        while i < N {
+            let g = if i < 2 { 0usize } else { 1usize };
+            assert!(r.available.get(&g).unwrap().contains(&a[i]) == free[i], "post_available_set_is_exactly_the_free_vehicles");
+            i += 1;
+        }
     }
+    #[kani::proof] #[kani::unwind(6)] fn registry_views_all_free() { let (r, a) = fleet(); check_view(&r, &a, &[true, true, true]); }
+    #[kani::proof] #[kani::unwind(6)] fn registry_views_one_group_exhausted() { let (mut r, a) = fleet(); r.use_actor(&a[2]); r.use_actor(&a[0]); check_view(&r, &a, &[false, true, false]); }
     #[kani::proof] #[kani::unwind(6)] fn registry_step_vehicle_0() { one_operation::<0>() }
     #[kani::proof] #[kani::unwind(6)] fn registry_step_vehicle_1() { one_operation::<1>() }
     #[kani::proof] #[kani::unwind(6)] fn registry_step_vehicle_2() { one_operation::<2>() }
@@ -83,7 +92,12 @@ mod h {
         let mut free_r = [true; N]; free_r[i] = false;
         let mut free_c = free_r;
         if kani::any() { c.use_actor(&a[j]); free_c[j] = false; } else { c.free_actor(&a[j]); free_c[j] = true; }
-        check_view(&r, &a, &free_r);
-        check_view(&c, &a, &free_c);
+        let mut k = 0;
+        while k < N {
+            let g = if k < 2 { 0usize } else { 1usize };
+            assert!(r.available.get(&g).unwrap().contains(&a[k]) == free_r[k], "post_original_unchanged_by_operations_on_the_copy");
+            assert!(c.available.get(&g).unwrap().contains(&a[k]) == free_c[k], "post_copy_mutated_alone");
+            k += 1;
+        }
     }
 }
